@@ -23,7 +23,7 @@ def _classify(line, r):
 
 
 _wire = dict(check_module="Proto.Check", check_fn="check_wire", case_type="wcase",
-             case_imports=["Open Scope N_scope.", "Open Scope string_scope."], coq_shard=60)
+             case_imports=["Open Scope string_scope."], coq_shard=60)
 
 PROPS["C20"] = dict(
     driver="proto",
@@ -43,6 +43,7 @@ PROPS["C20"] = dict(
         dict(name="mismatch", quick=30, thorough=600, **_wire),
     ],
     classify=_classify,
+    shrink_key="fields",
     rule="static: one case per file / message / enum / service / transaction message / source file / imported message "
          "(exhaustive over the regenerated descriptor sets of both families); wire: for every message type under "
          "proto/irismod (round robin) a value generated from its descriptor - maximal (all fields, extreme integers, long "
